@@ -59,7 +59,7 @@ def tag_triple(rng):
 
 def streams(rng, tier):
     q = tier == "quick"
-    n = 1200 if q else 25000
+    n = 700 if q else 25000
     out = []
     for kind, f in (("version", v_triple), ("specifier", sp_triple), ("set", set_triple), ("marker", marker_triple), ("requirement", req_triple), ("tag", tag_triple)):
         for _ in range(n):
